@@ -557,6 +557,13 @@ func (o *operation) handle() {
 			return
 		}
 		skipBody = !hasBody
+		// The request line builder returns an encoded path. Following net/url
+		// conventions, Path holds the decoded form and RawPath the encoded one.
+		o.request.URL.RawPath = ""
+		if decoded, err := url.PathUnescape(o.request.URL.Path); err == nil && decoded != o.request.URL.Path {
+			o.request.URL.RawPath = o.request.URL.Path
+			o.request.URL.Path = decoded
+		}
 		// Recompute if the server needs to prep the request, now that we've modified
 		// properties of op.request.
 		if o.serverPreparer != nil {
@@ -565,6 +572,7 @@ func (o *operation) handle() {
 	} else {
 		// if no request line builder, use simple request layout
 		o.request.URL.Path = o.methodConf.methodPath
+		o.request.URL.RawPath = ""
 		o.request.URL.RawQuery = ""
 		o.request.Method = http.MethodPost
 	}
@@ -615,7 +623,9 @@ func (o *operation) resolveMethod(transcoder *Transcoder) error {
 	uriPath := o.request.URL.Path
 	if o.client.protocol.protocol() == ProtocolREST {
 		var methods routeMethods
-		o.restTarget, o.restVars, methods = transcoder.restRoutes.match(uriPath, o.request.Method)
+		// Route on the still-encoded path: the route trie expects escaped segments
+		// and decodes captured variables itself (exactly once).
+		o.restTarget, o.restVars, methods = transcoder.restRoutes.match(o.request.URL.EscapedPath(), o.request.Method)
 		if o.restTarget != nil {
 			o.methodConf = o.restTarget.config
 			return nil
